@@ -394,7 +394,7 @@ def _catches_all(t: ast.expr) -> bool:
 def walk_own(a: ast.AST) -> Iterator[ast.AST]:
     """Sub-nodes evaluated as part of this CFG node (no nested defs/lambdas; for
     compound statements only the header expressions)."""
-    if isinstance(a, (ast.FunctionDef, ast.AsyncFunctionDef, ast.ClassDef, ast.Lambda)):
+    if a is None or isinstance(a, (ast.FunctionDef, ast.AsyncFunctionDef, ast.ClassDef, ast.Lambda)):
         return
     if isinstance(a, (ast.With, ast.AsyncWith)):
         for it in a.items:
